@@ -149,6 +149,29 @@ def check_single(res, spec, coordsys, fmt, radunit):
         return
     if text != text_b:
         res.violation(ID, 'serialize_not_deterministic', case, 'two serialisations differ', text, text_b)
+    # the file written with the same options holds the serialised text (Regions.write and Region.write)
+    import os
+    from regions import Regions
+    from mc import env as _env
+    for who, writer in (('Regions.write', lambda p: Regions([orig]).write(p, format='crtf', overwrite=True, **kw)),
+                        ('Region.write', lambda p: orig.write(p, format='crtf', overwrite=True, **kw))):
+        path = os.path.join(_env.scratch(), f'c11_{os.getpid()}.crtf')
+        try:
+            res.transitions += 1
+            with warnings.catch_warnings():
+                warnings.simplefilter('ignore')
+                writer(path)
+            with open(path, encoding='utf-8') as fh:
+                ftext = fh.read()
+        except Exception as exc:          # noqa: BLE001
+            res.violation(ID, 'write_raises', case, f'{who}(..., {kw}) raised {type(exc).__name__}: {exc}')
+            ftext = text
+        finally:
+            if os.path.exists(path):
+                os.remove(path)
+        if ftext != text:
+            res.violation(ID, 'file_differs_from_serialize', case, f'{who} with options {kw} wrote a text that differs from serialize() with the '
+                                                                   f'same options', text, ftext)
     if FP.fp(orig) != fp0:
         res.violation(ID, 'serialize_mutates_input', case, 'serialising changed the region (meta/visual/parameters)')
     res.transitions += 1
@@ -320,7 +343,7 @@ def single_cases(tier):
                     continue
                 spec = {'shape': shape, 'frame': frame, 'pos': 0, 'size': 0, 'include': 'absent', 'type': None, 'meta': m, 'visual': v}
                 out.append([spec, 'image' if frame == 'image' else frame, '.6f', None if frame == 'image' else 'arcsec'])
-    for t in ('plain', 'two words', 'with, comma', "it's", 'semi; colon', '30"', "5'", '"core"', 'beam 12" x 8"', 'field #7', '#1'):
+    for t in ('plain', 'two words', 'with, comma', "it's", 'semi; colon', '30"', "5'", '"core"', 'beam 12" x 8"', 'field #7', '#1', 'RADIO CORE', 'KONRAD 7 FMT'):
         for frame in ('image', 'icrs'):
             spec = {'shape': 'text', 'frame': frame, 'pos': 0, 'size': 0, 'include': 'absent', 'type': None, 'text': t}
             out.append([spec, frame, '.6f', None if frame == 'image' else 'deg'])
